@@ -358,8 +358,8 @@ func TestVerif_C34(t *testing.T) {
 			c34Scn{"rt-3sub-3sig", c34RT([]uint64{1, 3, 3}, [][]uint64{{1}, {3}, {2}}, 1), 3, 4},
 		)
 	}
-	for _, sc := range scs {
-		opts := vs.Options{Deviations: r.Pick(sc.devQ, sc.devT), Preemptions: -1, SelectDevs: -1, TimeDevs: 1, MaxExecs: int64(r.Pick(1500000, 12000000))}
+	for i, sc := range scs {
+		opts := vs.Options{Deadline: r.SliceDeadline(i, len(scs)), Deviations: r.Pick(sc.devQ, sc.devT), Preemptions: -1, SelectDevs: -1, TimeDevs: 1, MaxExecs: int64(r.Pick(1500000, 12000000))}
 		opts.NoStatePruning = os.Getenv("VSCHED_NOPRUNE") != ""
 		body := func(s *vs.Sched) vs.Outcome {
 			var out vs.Outcome
@@ -382,7 +382,7 @@ func TestVerif_C34(t *testing.T) {
 		sort.Strings(oks)
 		r.Sample(map[string]any{"scenario": sc.name, "executions": st.Executions, "hb_states": st.StatesSeen, "pruned_by_state": st.Pruned, "max_choice_depth": st.MaxDepth, "distinct_outcomes": len(st.Outcomes), "replayed": st.Replays, "deviation_bound": opts.Deviations})
 		if st.Capped {
-			r.Cap("scenario %s: execution cap %d reached", sc.name, opts.MaxExecs)
+			r.Cap("scenario %s: stopped at its execution cap (%d, a quarter of that per shard process) or at its share of the time budget before completing deviation bound %d", sc.name, opts.MaxExecs, opts.Deviations)
 		}
 		for _, d := range st.Divergences {
 			r.Violation("C34:harness-nondeterminism", d, nil)
